@@ -12,15 +12,26 @@ import (
 
 // C07: with user-managed memory every block is released exactly once by Close.
 func TestC07(t *testing.T) {
-	st := ev.Get("C07", "TestC07")
-	rapid.Check(t, func(t *rapid.T) {
+	rapid.Check(t, seqUserMemoryProp(ev.Get("C07", "TestC07"), false))
+}
+
+// C04 on sequential histories: the same engine with the allocator always in trap mode (every access
+// to a returned block faults at once, every bad free is recorded), including histories in which the
+// application keeps nodes in a NodeList. Judged: no fault, no bad free, nothing unlinked left unfreed
+// at idle, allocator empty after Close.
+func TestC04Seq(t *testing.T) {
+	rapid.Check(t, seqUserMemoryProp(ev.Get("C04", "TestC04Seq"), true))
+}
+
+func seqUserMemoryProp(st *ev.Stats, alwaysTrap bool) func(t *rapid.T) {
+	return func(t *rapid.T) {
 		sched.SeedRand(t)
 		cfg := genCfg(t, 1, true)
-		if rapid.IntRange(0, 2).Draw(t, "trap") > 0 {
+		if !alwaysTrap && rapid.IntRange(0, 2).Draw(t, "trap") > 0 {
 			cfg.GuardMode = guard.Quarantine
 		}
 		w := NewWorld(t, cfg, st)
-		w.Strict = true
+		w.Strict = !alwaysTrap // C04 does not judge collection progress, C07 does (everything must be gone by Close)
 		defer w.Teardown()
 		cycles := 0
 		restoredChecked := false
@@ -86,5 +97,5 @@ func TestC07(t *testing.T) {
 		}
 		st.Case(w.Desc(), nontrivial, classes...)
 		st.AddExtra("blocks-allocated", rep.Mallocs)
-	})
+	}
 }
